@@ -39,7 +39,7 @@ def run(tier):
     rv = C.tlc("MC_Momentum.tla", cfg, "c04_vac", timeout=300)
     if rv["violated"] != "TwoDraws":
         raise C.ToolError("vacuity guard TwoDraws not reachable")
-    n = 90 if tier == "quick" else 900
+    n = 90 if tier == "quick" else 6000
     scs = scenarios.momentum_scenarios(C.seed() * 4099 + 17, n)
     raw = record_runs(scs, "c04")
     runs = []
